@@ -208,6 +208,29 @@ def r15_copy(ctx):
             ctx.notes.append('UnknownMetaMessage.copy(time=<str>) is unchecked (finding D7 family)')
         else:
             ctx.require(ok, 'R15.1', f'copy({label}, time=str)', w, f'an invalid override is not rejected: {outs}', construct=f'{cp.qname}::{clsname}::invalid-override')
+        # naming the message's own type among the overrides is allowed - whatever string object spells it (one that was read
+        # from a file or built at run time is equal to the stored one, not identical with it)
+        def thunk_t():
+            m = factory()
+            own = m.attrs['type']
+            built = ''.join([own[:3], own[3:]])          # an equal string that is a different object
+            return ai.call_function(cp, [m], {'type': built, 'time': 77}), dict(m.attrs)
+        outs = ai.explore(thunk_t)
+        ok = len(outs) == 1 and outs[0].kind == 'return' and isinstance(outs[0].value[0], AObj)
+        if ok:
+            want = dict(outs[0].value[1])
+            want['time'] = 77
+            ok = attrs_equal(outs[0].value[0].attrs, want)
+        ctx.require(ok, 'R15.1', f'copy({label}, type=<own type>, time=77)', w,
+                    f'{outs}; the copy must equal a freshly constructed message with these values', construct=f'{cp.qname}::{clsname}::own-type-override')
+        # with skip_checks=True the copy is what the constructor makes with skip_checks=True: an out-of-range value passes
+        if clsname == 'Message' and label == 'Message':
+            outs = ai.explore(lambda: ai.call_function(cp, [factory()], {'skip_checks': True, 'note': 300}))
+            ok = len(outs) == 1 and outs[0].kind == 'return' and isinstance(outs[0].value, AObj) and outs[0].value.attrs.get('note') == 300 \
+                and outs[0].value.attrs.get('type') == 'note_on'
+            ctx.require(ok, 'R15.1', f'copy({label}, skip_checks=True, note=300)', w,
+                        f'{outs}; Message("note_on", skip_checks=True, note=300) is made without complaint, the copy with the same overrides must equal it',
+                        construct=f'{cp.qname}::{clsname}::skip-checks-forwarded')
         # frozen copies stay frozen class
         outs = ai.explore(lambda: ai.call_function(cp, [ai.call_function(ctx.p.func(FZ, 'freeze_message'), [factory()], {})], {}))
         ok = len(outs) == 1 and outs[0].kind == 'return' and isinstance(outs[0].value, AObj) and outs[0].value.cls.name == FROZEN_OF[clsname]
